@@ -59,8 +59,25 @@ class ProofRun(FullStack):
         self.mine(2)
         # the block processor undoes and re-indexes; between an advance and the next flush the new blocks are
         # in memory only: by-height requests in that window must be refused or answered for the new chain
+        oldchain = self.tree.chain(tip.bid)
         for _ in range(80):
             self.micro('bp')
+            # by-height requests for blocks about to be undone (they are still indexed: the answer is theirs) - whatever they
+            # leave in the by-height caches must be gone when the reorganisation is over
+            if self.db.state.height > base.height and self.bp.state is not None and self.bp.state.height <= tip.height \
+                    and bytes(self.db.state.tip) != self.tree.blocks[self.best].hash:
+                for h in range(base.height + 1, min(self.db.state.height, len(oldchain) - 1) + 1):
+                    rr = self.request('p', 'blockchain.transaction.id_from_pos', [h, 0, True])
+                    self.loop.run_until_idle()
+                    for _ in range(20):
+                        if rr in self.clients['p'].replies:
+                            break
+                        free = [j for j in self.session_jobs() if j not in self.hold]
+                        if not free:
+                            break
+                        free[0].deliver()
+                        self.loop.run_until_idle()
+                    self.checked += 1
             if self.bp.state is not None and self.bp.state.height > self.db.state.height:
                 newchain = self.tree.chain(self.best)
                 for h in range(self.db.state.height + 1, min(self.bp.state.height, len(newchain) - 1) + 1):
